@@ -324,7 +324,7 @@ impl<const DEDUP: bool> ParSortPairs<DEDUP> {
         // Iterators in partitioned_presorted_pairs[partition_id] contain all
         // pairs (src, dst, label) where num_nodes_per_partition*partition_id <=
         // src < num_nodes_per_partition*(partition_id+1)
-        unsorted_pairs.try_for_each_init(
+        let result = unsorted_pairs.try_for_each_init(
             // Rayon calls this initializer on every sequential iterator inside
             // the parallel iterator. Depending on how the parallel iterator was
             // constructed (and if IndexedParallelIterator::with_min_len was not
@@ -389,7 +389,17 @@ impl<const DEDUP: bool> ParSortPairs<DEDUP> {
                 buf.push(((src, dst), label));
                 Ok(())
             },
-        )?;
+        );
+
+        if let Err(e) = result {
+            // Discard the pending pairs, so that dropping the thread states
+            // does not trip their consistency checks, and report the error
+            while let Some(mut thread_state) = sorter_thread_states.pop() {
+                thread_state.sorted_pairs.clear();
+                thread_state.unsorted_buffers.clear();
+            }
+            return Err(e);
+        }
 
         // Collect them into an iterable
         let sorter_thread_states: Vec<_> = std::iter::repeat(())
